@@ -2,7 +2,7 @@ SPECIFICATION Spec
 CONSTANTS
   Procs = {1, 2}
   OpsC = {"Check","Example","GetAST","OpenAPI"}
-  ContentsC = {"nested","deeper","usesT"}
+  ContentsC = {"nested","usesT","orset","rich"}
   MaxProg = 2
   Buffers = {"b1","b2","b3","b4"}
   Shared = TRUE
